@@ -23,7 +23,7 @@ from pathlib import Path
 REPO = Path(os.environ.get("VERIF_REPO", "/repo"))
 SRC = REPO / "src"
 VERIF = Path(__file__).resolve().parent.parent
-BUILD = VERIF / "build"
+BUILD = Path(os.environ.get("VERIF_BUILD", str(VERIF / "build")))
 EXT = BUILD / "ext"
 STAMPS = EXT / "stamps.json"
 PYX_BASE = VERIF / "fixtures" / "pyx_baseline.json"  # committed; refreshed with --rebaseline
